@@ -39,7 +39,9 @@
        script, monitor fuel, every body whose positions are classified as GK says ([guarded_body]:
        sites are positions, the positions of Conditions / loops / Parallel carry their guard /
        limit / arity, block prefixes and the position behind the last statement of every block
-       carry nothing, branches and instances are task calls).
+       carry nothing, branches and instances are task calls; INS / LV -- the parameter list of a
+       site, the variable of a loop position -- serve the parameter test of C15, Properties/C15params.v,
+       which is proved by the same induction; [mon_decide] is that monitor without the test).
    (2) C04decide_unfold_guarded — the call-tree unfolding of every source program is guarded
        under [gk_at]; C04decide_programs / C04_monitor_programs — every trace of run_ref.
    (3) what acceptance means: C04decide_run_meaning (every entry passed the test in the state
@@ -50,20 +52,21 @@
        without Failed block), an accepted run, necessity of the guard.
    (5) C04decide_net_fragment / C04_net_fragment — the faithful net model on the refinement fragment.
    Not in a trace: the value the engine "holds" other than through the oracle's answers. *)
-From PFDL Require Import RefSem RunCase Monitors MonitorsSeq MonitorsFork MonitorsDecide Examples RefC02 RefC03 RefDecide NetRun.
+From PFDL Require Import RefSem RunCase Monitors MonitorsSeq MonitorsFork MonitorsDecide MonitorsParams Examples RefC02 RefC03 RefDecide NetRun.
 From PFDL.Refine Require Import Main TransferDecide.
 
 Theorem C04decide_reference_semantics :
-  forall (GK : name -> list nat -> gk) (orc : oracle) (imm : nat -> bool) (body : list xstmt) (fuel : nat)
+  forall (GK : name -> list nat -> gk) (INS : name -> list nat -> list param) (LV : name -> list nat -> option name)
+         (orc : oracle) (imm : nat -> bool) (body : list xstmt) (fuel : nat)
          (script : list apicall) (tr : list callrec) (F : nat),
-    guarded_body GK body ->
+    guarded_body GK INS LV body ->
     run_script orc imm fuel body sched0 script = Ok tr -> holds_decide_with GK orc F tr = true.
 Proof. exact decide_with_ref. Qed.
 Print Assumptions C04decide_reference_semantics.
 
 Theorem C04decide_unfold_guarded :
   forall (tasks : list task) (f : nat) (body : list xstmt),
-    unfold_program tasks f = Ok body -> guarded_body (gk_at tasks) body.
+    unfold_program tasks f = Ok body -> guarded_body (gk_at tasks) (ins_at tasks) (lv_at tasks) body.
 Proof. exact unfold_program_guarded. Qed.
 Print Assumptions C04decide_unfold_guarded.
 
@@ -78,15 +81,15 @@ Proof. exact C04_programs. Qed.
 Print Assumptions C04_monitor_programs.
 
 Theorem C04decide_run_meaning :
-  forall GK orc F tr pre r post a e b S0,
-    dec_run GK orc F S0 tr = true -> tr = pre ++ r :: post -> cr_log r = a ++ e :: b ->
-    exists S1 H H', dhist GK orc F S0 pre = Some S1 /\ dec_log GK orc F S1 a = Some H /\ dec_entry GK orc F H e = Some H'.
+  forall GK orc chk F tr pre r post a e b S0,
+    dec_run GK orc chk F S0 tr = true -> tr = pre ++ r :: post -> cr_log r = a ++ e :: b ->
+    exists S1 H H', dhist GK orc chk F S0 pre = Some S1 /\ dec_log GK orc chk F S1 a = Some H /\ dec_entry GK orc chk F H e = Some H'.
 Proof. exact decide_run_meaning. Qed.
 Print Assumptions C04decide_run_meaning.
 
 Theorem C04decide_start_rule :
-  forall GK orc F H n H' c,
-    dec_notif GK orc F H n = Some H' -> ds_lost H' = false ->
+  forall GK orc chk F H n H' c,
+    dec_notif GK orc chk F H n = Some H' -> ds_lost H' = false ->
     n_kind n = TS \/ n_kind n = SS -> n_ctx n = Some c ->
     exists r, assoc c (ds_recs H) = Some r /\ d_task r = st_task (n_site n) /\
               match d_more r with
@@ -97,8 +100,8 @@ Proof. exact start_rule. Qed.
 Print Assumptions C04decide_start_rule.
 
 Theorem C04decide_end_rule :
-  forall GK orc F H n H',
-    dec_notif GK orc F H n = Some H' -> ds_lost H' = false -> n_kind n = TF ->
+  forall GK orc chk F H n H',
+    dec_notif GK orc chk F H n = Some H' -> ds_lost H' = false -> n_kind n = TF ->
     exists r cn more, assoc (n_id n) (ds_recs H) = Some r /\ d_more r = 0 /\
                       expect GK orc F r (ds_q H) = Some (Some (None, cn, ds_q H, more)).
 Proof. exact end_rule. Qed.
@@ -151,7 +154,7 @@ Proof. exact nested_condition_rejected. Qed.
 Print Assumptions C04decide_rejects_nested_condition.
 
 Theorem C04decide_guard_inhabited :
-  guarded_body (gk_at (p_tasks dx_prog)) (match unfold_program (p_tasks dx_prog) 200 with Ok b => b | _ => [] end).
+  guarded_body (gk_at (p_tasks dx_prog)) (ins_at (p_tasks dx_prog)) (lv_at (p_tasks dx_prog)) (match unfold_program (p_tasks dx_prog) 200 with Ok b => b | _ => [] end).
 Proof. exact dx_guarded. Qed.
 Print Assumptions C04decide_guard_inhabited.
 
